@@ -1,2 +1,3 @@
 import Rfsm.Model.Wire
 import Rfsm.Model.Descriptor
+import Rfsm.Model.Timer
